@@ -40,7 +40,7 @@ def ncf2wind(ncffile, outpath, tflag='TFLAG'):
         if hasattr(lstag, 'tobytes') and not np.isnan(lstag):
             buf = np.array([12], dtype='>i').tobytes()
             outfile.write(buf + t.tobytes() + d.tobytes() +
-                          lstag.tobytes() + buf)
+                          np.array(lstag).astype('>i').tobytes() + buf)
         else:
             # files without the staggering flag have an 8-byte time header
             # (the reader sets LSTAGGER to nan for them)
